@@ -637,7 +637,7 @@ fn main() {
             cleanup_own_dirs();
             return;
         }
-        let m = M { kinds: if ctx.quick() { vec![0, 1, 2, 3, 6, 7, 9, 11, 13, 15] } else { (0..STMTS.len()).collect() } };
+        let m = M { kinds: if ctx.quick() { vec![0, 1, 2, 3, 6, 7, 8, 9, 10, 11, 13, 15] } else { (0..STMTS.len()).collect() } };
         let mut machinery: Option<String> = None;
         let t_explore = Instant::now();
         let stats = hx::explore(&m, depth, 200_000, |v| {
@@ -651,7 +651,7 @@ fn main() {
             cleanup_own_dirs();
             ctx.machinery(&e);
         }
-        hx::report(ctx, &stats, "up to 2 (quick) / 3 (thorough) statements, each through the RESP or the HTTP front end (one shared store), of 16 kinds (quick: 10 of them) (CREATE node / path with and without RETURN, MATCH..CREATE relationship, SET property / label, REMOVE property, DELETE, DETACH DELETE, MERGE; with and without RETURN of the written entity); a restart with the mirrored start_server recovery after every acknowledged statement");
+        hx::report(ctx, &stats, "up to 2 (quick) / 3 (thorough) statements, each through the RESP or the HTTP front end (one shared store), of 16 kinds (quick: 12 of them) (CREATE node / path with and without RETURN, MATCH..CREATE relationship, SET property / label, REMOVE property, DELETE, DETACH DELETE, MERGE; with and without RETURN of the written entity); a restart with the mirrored start_server recovery after every acknowledged statement");
 
         let explore_s = t_explore.elapsed().as_secs_f64();
         let t_bind = Instant::now();
